@@ -211,7 +211,8 @@ def main():
     print('%s %s: %d cases, %d distinct non-trivial, %d unmodelled, %d/%d theorems audited, %.1fs%s' % (
         pid, args.tier, outcome.evaluations, len(outcome.nontrivial), outcome.unmodelled,
         len(theorems) - len([u for u in unproved if not u.startswith('(')]) if state.build_ok else 0, len(theorems),
-        wall, '' if exit_code == 0 else ' - VIOLATION'))
+        wall, (', leanchecker %s' % state.leanchecker[:6] if getattr(state, 'leanchecker', None) else '') +
+        ('' if exit_code == 0 else ' - VIOLATION')))
     return exit_code
 
 
